@@ -415,7 +415,7 @@ def r5(run):
     mr = C.body_or_fail(run, "xs::api::match_route")
     decoders = [c for c in mr.calls() if c.bb in mr.live_blocks() and c.fn in (
         "xs::store::ReadOptions::from_query", "xs::store::ttl::TTL::from_query", "core::str::<impl str>::parse", "core::str::traits::FromStr::from_str")]
-    run.floor("fallible decoders in match_route", len(decoders), 6, mr.sp)
+    run.floor("fallible decoders in match_route", len(decoders), 4, mr.sp)
     bad_sites = [bi for bi, si, st in mr.stmt_points() if st["k"] == "assign" and st["rv"].get("adt") == "xs::api::Routes" and st["rv"].get("variant") == "BadRequest"]
     for c in decoders:
         ee = q.call_result_edges(mr, c, ok=False)
